@@ -565,7 +565,11 @@ class Exec(BufMixin, FlatMixin):
         out = []
         for x in e.elts:
             if isinstance(x, ast.Starred):
-                out.extend(self.ev(x.value, st, fr))
+                v = self.ev(x.value, st, fr)
+                if self.is_arr(v) and v.rank == 1 and not is_cint(v.shape[0]):
+                    out.append(V.StarredArr(v))
+                else:
+                    out.extend(v)
             else:
                 out.append(self.ev(x, st, fr))
         return out
@@ -782,6 +786,8 @@ class Exec(BufMixin, FlatMixin):
                 return r
             if a == 'ndim':
                 return base.rank
+            if a == 'flat':
+                return V.FlatOf(base)
             if a == 'T' and base.rank == 2:
                 f = self.elem_fn(st, base)
                 return ExprArr([base.shape[1], base.shape[0]], lambda j: f((j[1], j[0])), base.elem)
@@ -801,6 +807,8 @@ class Exec(BufMixin, FlatMixin):
             self.safety(st, fr, 'attribute_exists', False, e)
             raise OutOfReach('missing attribute %s.%s' % (cls, a))
         if isinstance(base, FunVal) and base.kind == 'builtin':
+            if a == 'pi' and base.name in ('np', 'numpy', 'math'):
+                return V.PI
             return FunVal('builtin', base.name + '.' + a)
         if isinstance(base, (list, tuple, dict, str)):
             return FunVal('pymethod', a, base)
